@@ -268,7 +268,9 @@ def comm(rng, ext, bound, tries=5000, with_assert=None, min_bound=20, balanced=N
     balanced: demand as many sends as receives per mailbox (default: two programs out of three)."""
     assert ext in COMM_EXT
     want_balanced = (rng.random() < 0.67) if balanced is None else balanced
-    for _ in range(tries):
+    for attempt in range(tries):
+        if attempt == tries // 2:
+            want_balanced = False                 # progressive relaxation: never fail for want of a pretty program
         p = Program()
         nact = rng.choice([2, 2, 2, 3])
         p.nmbox = rng.choice([1, 1, 2])
@@ -291,9 +293,9 @@ def comm(rng, ext, bound, tries=5000, with_assert=None, min_bound=20, balanced=N
             continue
         if want_balanced and not _balanced(p):
             continue
-        if ext in ("waitany", "testany") and not _any_over_two(p, need):
+        if ext in ("waitany", "testany") and attempt < 3 * tries // 4 and not _any_over_two(p, need):
             continue
         b = static_bound(p)
-        if min_bound <= b <= bound:
+        if (min_bound if attempt < 3 * tries // 4 else 3) <= b <= bound:
             return p, b
     raise RuntimeError("comm generator could not produce a program within the size bounds (%s, %d)" % (ext, bound))
